@@ -321,13 +321,33 @@ pub fn random_step(rng: &mut Rng, c: &mut Cli, padlens: &[usize]) -> Value {
 }
 
 /// happy path: connect, result, request play|publish, create result, start status
+/// a publishing call at a point of the workflow where it may not be permitted yet (then it must be refused WITHOUT any effect -
+/// in particular without touching the serializer's header memory, which the first permitted call would trip over)
+fn early_publish(rng: &mut Rng, c: &mut Cli, t: &mut Trace) {
+    if !rng.chance(1, 2) { return; }
+    let n = rng.range(1, 2);
+    for _ in 0..n {
+        let d = media_data(rng, 5);
+        let dd = Bytes::from(d.clone());
+        let ts = 40 + rng.below(3) as u32;
+        match rng.below(3) {
+            0 => t.emit(&c.call(json!({"m":"publish_video","ts":w(ts),"drop":false,"data":segs(&d)}), &mut |s| one(s.publish_video_data(dd.clone(), RtmpTimestamp::new(ts), false)))),
+            1 => t.emit(&c.call(json!({"m":"publish_audio","ts":w(ts),"drop":false,"data":segs(&d)}), &mut |s| one(s.publish_audio_data(dd.clone(), RtmpTimestamp::new(ts), false)))),
+            _ => { let meta = gen_meta(rng); t.emit(&c.call(json!({"m":"publish_metadata","meta":meta_json(&meta)}), &mut |s| one(s.publish_metadata(&meta)))) }
+        }
+    }
+}
+
 pub fn warmup(rng: &mut Rng, c: &mut Cli, t: &mut Trace, depth: u64) {
     let app = rng.pick(&APPS).to_string();
+    early_publish(rng, c, t);
     t.emit(&c.call(json!({"m":"request_connection","app":app.as_bytes().to_vec()}), &mut |s| one(s.request_connection(app.clone()))));
+    early_publish(rng, c, t);
     if depth < 1 { return; }
     let txn = *c.txns.last().unwrap_or(&1);
     let b = c.peer.encode(cmd("_result", txn as f64, status("x"), vec![status("NetConnection.Connect.Success")]), 0, 0);
     t.emit(&c.input(json!({"m":"result","txn":txn,"txnint":true,"hassid":false,"sid":0}), &b));
+    early_publish(rng, c, t);
     if depth < 2 { return; }
     let key = rng.pick(&KEYS).to_string();
     let publish = rng.chance(1, 2);
@@ -336,16 +356,29 @@ pub fn warmup(rng: &mut Rng, c: &mut Cli, t: &mut Trace, depth: u64) {
     } else {
         t.emit(&c.call(json!({"m":"request_playback","key":key.as_bytes().to_vec()}), &mut |s| one(s.request_playback(key.clone()))));
     }
+    early_publish(rng, c, t);
     if depth < 3 { return; }
     let txn = *c.txns.last().unwrap_or(&2);
     let sid = *rng.pick(&[1u32, 2, 5]);
     c.sids.push(sid);
     let b = c.peer.encode(cmd("_result", txn as f64, Amf0Value::Null, vec![Amf0Value::Number(sid as f64)]), 0, 0);
     t.emit(&c.input(json!({"m":"result","txn":txn,"txnint":true,"hassid":true,"sid":sid}), &b));
+    early_publish(rng, c, t);
     if depth < 4 { return; }
     let code = if publish { "NetStream.Publish.Start" } else { "NetStream.Play.Start" };
     let b = c.peer.encode(cmd("onStatus", 0.0, Amf0Value::Null, vec![status(code)]), 0, sid);
     t.emit(&c.input(json!({"m":"onStatus","code": if publish {"publish_start"} else {"play_start"}}), &b));
+    // the first permitted (or, while playing, still refused) publishing calls of each kind
+    for k in 0..3u32 {
+        let d = media_data(rng, 7);
+        let dd = Bytes::from(d.clone());
+        let ts = 90 + k;
+        match k {
+            0 => t.emit(&c.call(json!({"m":"publish_video","ts":w(ts),"drop":false,"data":segs(&d)}), &mut |s| one(s.publish_video_data(dd.clone(), RtmpTimestamp::new(ts), false)))),
+            1 => t.emit(&c.call(json!({"m":"publish_audio","ts":w(ts),"drop":false,"data":segs(&d)}), &mut |s| one(s.publish_audio_data(dd.clone(), RtmpTimestamp::new(ts), false)))),
+            _ => { let meta = gen_meta(rng); t.emit(&c.call(json!({"m":"publish_metadata","meta":meta_json(&meta)}), &mut |s| one(s.publish_metadata(&meta)))) }
+        }
+    }
 }
 
 pub fn gen_config(rng: &mut Rng) -> ClientSessionConfig {
